@@ -220,6 +220,9 @@ fn zero_right_pad_integer_ascii_digits(
         None => { return; }
     };
 
+    // zero has no integer digits to shift left: "0", never "000"
+    let integer_zero_count = if digits.as_slice() == b"0" { 0 } else { integer_zero_count };
+
     // did not explicitly request precision, so we'll only
     // implicitly right-pad if less than this threshold.
     if target_scale.is_none() && integer_zero_count > 20 {
